@@ -1485,8 +1485,10 @@ lydjson_parse_instance(struct lyd_json_ctx *lydctx, struct lyd_node *parent, str
 {
     LY_ERR r, rc = LY_SUCCESS;
     uint32_t type_hints = 0;
+    struct lyd_ctx_unres_count unres_count;
 
     LOG_LOCSET(snode, NULL);
+    lyd_parser_unres_count((struct lyd_ctx *)lydctx, &unres_count);
 
     r = lydjson_data_check_opaq(lydctx, snode, &type_hints);
     if (r == LY_SUCCESS) {
@@ -1554,6 +1556,10 @@ lydjson_parse_instance(struct lyd_json_ctx *lydctx, struct lyd_node *parent, str
     }
 
 cleanup:
+    if (rc && !*node) {
+        /* forget the unresolved descendants of the node if it was freed */
+        lyd_parser_unres_trim((struct lyd_ctx *)lydctx, &unres_count);
+    }
     LOG_LOCBACK(1, 0);
     return rc;
 }
